@@ -146,9 +146,28 @@ func TestVerif_C14_select(t *testing.T) {
 			fold = "1"
 			count("fold")
 		}
-		s.Case("c14select "+verifh.Hex(tok), got+" fold="+fold, true, "", derived, fmt.Sprintf("NewCompressReader(%q) -> %s", tok, got))
+		// the list of codings the value denotes (RFC 9110 5.6.1: comma-separated, optional white space,
+		// empty elements ignored), computed here with the standard library and by the model
+		// (Req.Compress.Lines.codings): whatever gets a reader, or passes the EqualFold test, must be
+		// ONE coding as it stands (Req.Props.C14Lines.decoded_is_single_coding)
+		var codings []string
+		for _, e := range strings.Split(tok, ",") {
+			if e = strings.Trim(e, " \t"); e != "" {
+				codings = append(codings, e)
+			}
+		}
+		single := len(codings) == 1 && codings[0] == tok
+		ok := !(rd != nil || fold == "1") || single
+		if len(codings) > 1 {
+			count("codings>1")
+		}
+		human := fmt.Sprintf("NewCompressReader(%q) -> %s", tok, got)
+		if !ok {
+			human += fmt.Sprintf(" :: decoded although the value denotes the codings %q", codings)
+		}
+		s.Case("c14select "+verifh.Hex(tok), got+" fold="+fold+" codings="+verifh.HexList(codings), ok, "", derived, human)
 	}
-	for _, k := range []string{"sel:gzip", "sel:deflate", "sel:br", "sel:zstd", "sel:none", "fold"} {
+	for _, k := range []string{"sel:gzip", "sel:deflate", "sel:br", "sel:zstd", "sel:none", "fold", "codings>1"} {
 		if hist[k] == 0 {
 			t.Errorf("bucket %s not reached", k)
 		}
@@ -332,9 +351,11 @@ func TestVerif_C14_readers(t *testing.T) {
 			// andybalholm/brotli v1.1.1 Reader.Read proxies the source's io.EOF whenever all input
 			// so far was consumed, finished stream or not: the library itself reports a clean end
 			class = "br-truncated-eof"
-		case st.alg == "zstd" && st.kind == "srcerr" && term == "eof":
+		case st.alg == "zstd" && st.kind == "srcerr" && gotTerm == "eof":
 			// klauspost/compress zstd frameDec.reset maps io.ErrUnexpectedEOF from the source to
-			// io.EOF when it strikes exactly at a frame boundary (offset 0 included)
+			// io.EOF when it strikes exactly at a frame boundary (offset 0 included); the reference
+			// (verifc14.RefSched) and the model report the source's failure, as ZstdReader does once
+			// fixes/C14-12 is applied - the clean EOF of the unpatched reader is the known finding
 			class = "zstd-source-error-at-frame-boundary"
 		case st.alg == "br" && strings.HasPrefix(term, "err") && len(extra) > 0 && closeAfter < 0:
 			// the library is not sticky (error, then io.EOF) and BrotliReader.berr is never set
